@@ -22,26 +22,27 @@ import (
 // ---------------------------------------------------------------------------------------------
 
 type hdStats struct {
-	Histories  int            `json:"histories"`
-	Hands      int            `json:"hands"`
-	Settled    int            `json:"hands_settled"`
-	States     int            `json:"states_delivered"`
-	Actions    int            `json:"actions_submitted"`
-	Accepted   int            `json:"actions_accepted"`
-	Probes     int            `json:"illegal_probes"`
-	ProbeKinds map[string]int `json:"probe_kinds"`
-	ActMix     map[string]int `json:"accepted_action_mix"`
-	Faults     int            `json:"faults_injected"`
-	Events     map[string]int `json:"events_seen"`
-	Players    map[string]int `json:"participants_per_hand"`
-	Structures map[string]int `json:"blind_structures"`
-	Stuck      int            `json:"stuck_hands"`
-	Withheld   int            `json:"withheld_responses_waited_out"`
-	LateExtends int           `json:"extensions_asked_after_the_deadline_passed"`
-	Crashed    int            `json:"crashed_histories"`
-	MaxSteps   int            `json:"max_backend_calls_per_hand"`
-	Distinct   int            `json:"distinct_histories"`
-	Samples    []string       `json:"samples"`
+	Histories    int            `json:"histories"`
+	Hands        int            `json:"hands"`
+	Settled      int            `json:"hands_settled"`
+	States       int            `json:"states_delivered"`
+	Actions      int            `json:"actions_submitted"`
+	Accepted     int            `json:"actions_accepted"`
+	Probes       int            `json:"illegal_probes"`
+	ProbeKinds   map[string]int `json:"probe_kinds"`
+	ActMix       map[string]int `json:"accepted_action_mix"`
+	Faults       int            `json:"faults_injected"`
+	Events       map[string]int `json:"events_seen"`
+	Players      map[string]int `json:"participants_per_hand"`
+	Structures   map[string]int `json:"blind_structures"`
+	Stuck        int            `json:"stuck_hands"`
+	Withheld     int            `json:"withheld_responses_waited_out"`
+	LateExtends  int            `json:"extensions_asked_after_the_deadline_passed"`
+	Crashed      int            `json:"crashed_histories"`
+	SlowListener int            `json:"histories_with_a_slow_action_listener"`
+	MaxSteps     int            `json:"max_backend_calls_per_hand"`
+	Distinct     int            `json:"distinct_histories"`
+	Samples      []string       `json:"samples"`
 }
 
 func newHDStats() *hdStats {
@@ -58,6 +59,7 @@ func mergeHD(d, s *hdStats) {
 	d.Probes += s.Probes
 	d.Faults += s.Faults
 	d.Stuck += s.Stuck
+	d.SlowListener += s.SlowListener
 	d.Withheld += s.Withheld
 	d.LateExtends += s.LateExtends
 	if s.MaxSteps > d.MaxSteps {
@@ -681,6 +683,11 @@ func genHDHistory(r *rand.Rand, st *hdStats, hid int, hands int, faultPct, probe
 		return ""
 	}
 	h.rig = rig
+	defer rig.abandon()
+	if r.Intn(3) == 0 {
+		rig.listenerDwell = 2 * time.Millisecond
+		st.SlowListener++
+	}
 	st.Histories++
 	seats := r.Perm(maxSeat)
 	ps := []string{}
